@@ -48,16 +48,17 @@ def shapes(tier):
         for t in itertools.product('BHLTD', repeat=4):
             out.append(''.join(t))
     var = 'vmspqagekj'
-    runs = ['B', 'HL', 'LH', 'BT', 'HD', 'BHL', 'HHH', 'BHH'] if tier == 'quick' else ['B', 'HL', 'LH', 'BT', 'TB', 'HD', 'BHL', 'LLH', 'IJ', 'bQ', 'HHH', 'BHH', 'LLL', 'HHHH']
+    runs = ['B', 'HL', 'BT', 'HD', 'HHH', 'BHH'] if tier == 'quick' else ['B', 'HL', 'LH', 'BT', 'TB', 'HD', 'BHL', 'LLH', 'IJ', 'bQ', 'HHH', 'BHH', 'LLL', 'HHHH']
     for v in var:
         for r in runs:
             out.append(v + r)
             out.append(r + v)
             out.append(r + v + r)
-            for r2 in runs[:3]:
-                out.append(r + v + r2)
+            if tier == 'thorough':
+                for r2 in runs[:3]:
+                    out.append(r + v + r2)
     for v1 in var:
-        for v2 in var:
+        for v2 in (var if tier == 'thorough' else 'vpak'):
             out.append('B' + v1 + v2 + 'H')
     return sorted(set(out), key=lambda s: (len(s), s))
 
@@ -68,6 +69,12 @@ SPECIAL = [
     ('described-run', ['x = Int(1)', "length = Int(2).describe(AutoLength('a'))", 'y = Int(1)', 'a = Data(length)'], ''),
     ('described-auto', ["bits = Int(1).describe(Auto(lambda pkt: len(pkt.a) * 8))", 'a = Data(bits // 8)'], ''),
     ('embed', ['pt = Ref(Pt(x=1, y=2), embed=True)', 'z = Int(1)'], mk.class_src('Pt', ['x = Int(1)', 'y = Int(2, endianness="little")'])),
+    ('embed-mid', ['m = Data(until_marker=b"\\x00")', 'pt = Ref(Pb(), embed=True)', 'z = Int(2)'],
+     mk.class_src('Pb', ['p = Bits(4)', 'q = Bits(4)', 'n = Int(1)', 'd = Data(n)'])),
+    ('embed-mid2', ['n0 = Int(1)', 'l = Int(1).repeated(n0)', 'pt = Ref(Pc(), embed=True)', 'b1 = Bits(3)', 'b2 = Bits(5)'],
+     mk.class_src('Pc', ['k = Int(1)', 'v = Data(k)', 'w = Int(2, endianness="little")'])),
+    ('embed-at', ['h = Int(1)', 'x = Int(1).at(3)', 'pt = Ref(Pd(), embed=True)', 'z = Int(1)'],
+     mk.class_src('Pd', ['y = Data(1).shift(1)', 'e = Int(2)'])),
     ('class-little', ['a = Int(2)', 'b = Int(2, endianness="big")', 'c = Int(3)', 'd = Int(4)'], 'ENDIAN'),
     ('class-align', ['a = Int(1)', 'b = Int(2)', 'n = Int(1)', 'd = Data(n)', 'c = Int(1)'], 'ALIGN'),
     ('ref', ['a = Int(1)', 's = Ref(Sub)', 'b = Int(2)'], mk.class_src('Sub', ['x = Int(1)', 'y = Data(x)', 'z = Int(2, endianness="little")'])),
@@ -174,8 +181,14 @@ def check_spec(spec, st, tier, only=None):
     from bisturi.packet import Packet
     worlds, classes = [], []
     base_src = None
+    variants = VARIANTS
+    if tier == 'quick' and 'names' in spec:
+        # the component alphabet is also covered by C01/C02/C08 ...: in the quick tier it runs under the six
+        # option combinations that select different code (all 16 for the run shapes and the special programs)
+        variants = [v for v in VARIANTS if (v['vectorize'] and v['annotate']) or
+                    (v['generate_for_pack'] and v['generate_for_unpack'] and (v['vectorize'] != v['annotate']))]
     try:
-        for opts in VARIANTS:
+        for opts in variants:
             src, cname = variant_source(spec, opts)
             base_src = base_src or src
             w = mk.World()
@@ -210,13 +223,18 @@ def check_spec(spec, st, tier, only=None):
             for fill in (0, 1, 0xff):
                 for n in range(L + 1, 17):
                     inputs.append(bytes([fill]) * 2 + ea.RAMP[:n - 2])
+            # small control prefixes (counts, lengths, markers) followed by a ramp: the later fields of longer declarations
+            if 'special' in spec or ('shape' in spec and any(ch in VARIABLE for ch in spec['shape'])):
+                for t in alphabet.all_strings([0, 1, 2], 3 if 'special' in spec else 2):
+                    for k in (4, 9):
+                        inputs.append(t + ea.RAMP[:k])
         seen_vals = set()
         for raw in inputs:
             st.inc('evaluations')
             outs = [unpack_outcome(K, raw) for K in classes]
             o0 = outs[0][0]
             st.add('outcomes', o0[0])
-            for (o, p), opts in zip(outs[1:], VARIANTS[1:]):
+            for (o, p), opts in zip(outs[1:], variants[1:]):
                 if o != o0:
                     st.violate('unpack differs: %s vs %s' % (o0[0], o[0]),
                                'unpack(%r): all-on gives %r, %r gives %r | %s' % (raw, o0, opts, o, srcline),
@@ -230,7 +248,7 @@ def check_spec(spec, st, tier, only=None):
                 seen_vals.add(key)
                 st.add('states', (repr(spec), key[:200]))
                 pouts = [pack_outcome(p) for _, p in outs]
-                for po, opts in zip(pouts[1:], VARIANTS[1:]):
+                for po, opts in zip(pouts[1:], variants[1:]):
                     if po != pouts[0]:
                         st.violate('pack differs: %s vs %s' % (pouts[0][0], po[0]), 'pack() after unpack(%r): all-on %r, %r gives %r | %s' % (raw, pouts[0], opts, po, srcline),
                                    {'spec': spec, 'raw': raw}, mk.HEADER + base_src + '\nprint(K.unpack(%r).pack())' % raw)
@@ -257,7 +275,7 @@ def check_spec(spec, st, tier, only=None):
                             res.append(pack_outcome(q))
                         st.inc('evaluations')
                         st.add('outcomes', 'pack-' + res[0][0])
-                        for po, opts in zip(res[1:], VARIANTS[1:]):
+                        for po, opts in zip(res[1:], variants[1:]):
                             if po != res[0]:
                                 st.violate('pack differs on ill value: %s vs %s' % (res[0][0], po[0]),
                                            'p = unpack(%r); p.%s = %r; p.pack(): all-on %r, %r gives %r | %s' % (raw, nm, bad, res[0], opts, po, srcline),
